@@ -24,6 +24,7 @@ import (
 	"reflect"
 	"sort"
 	"strings"
+	"sync/atomic"
 	"time"
 
 	"github.com/brutella/hc/rtp"
@@ -801,6 +802,8 @@ func main() {
 	r.Floor("tagged_list_pattern", r.DistinctN("tagged_list_pattern"), 31)
 	r.Floor("inline_list_pattern", r.DistinctN("inline_list_pattern"), 31)
 	r.Floor("field_kinds_generated", r.DistinctN("field_kinds_generated"), 14)
+	r.Count("rejected_call_groups_before_real_calls", int(atomic.LoadInt64(&disturbances)))
+	r.Floor("rejected_call_groups_before_real_calls", int(atomic.LoadInt64(&disturbances)), 1000)
 	r.Finish()
 }
 
